@@ -1,12 +1,18 @@
-// C18 kernels (cstdlib div/ldiv/lldiv/imaxdiv, labs/llabs): results are passed out through pointers (scalar ABI). No logic.
+// C18 kernels (cstdlib div/ldiv/lldiv/imaxdiv, labs/llabs): one scalar result per kernel (quot and rem separately), no logic.
 #include "vf.h"
 #include <etl/cstdlib.hpp>
-K void k_div(int x, int y, int* q, int* r) { auto const d = etl::div(x, y); *q = d.quot; *r = d.rem; }
-K void k_div_l(long x, long y, long* q, long* r) { auto const d = etl::div(x, y); *q = d.quot; *r = d.rem; }
-K void k_div_ll(long long x, long long y, long long* q, long long* r) { auto const d = etl::div(x, y); *q = d.quot; *r = d.rem; }
-K void k_ldiv(long x, long y, long* q, long* r) { auto const d = etl::ldiv(x, y); *q = d.quot; *r = d.rem; }
-K void k_lldiv(long long x, long long y, long long* q, long long* r) { auto const d = etl::lldiv(x, y); *q = d.quot; *r = d.rem; }
-K void k_imaxdiv(etl::intmax_t x, etl::intmax_t y, etl::intmax_t* q, etl::intmax_t* r) { auto const d = etl::imaxdiv(x, y); *q = d.quot; *r = d.rem; }
+K int k_div_q(int x, int y) { return etl::div(x, y).quot; }
+K int k_div_r(int x, int y) { return etl::div(x, y).rem; }
+K long k_div_l_q(long x, long y) { return etl::div(x, y).quot; }
+K long k_div_l_r(long x, long y) { return etl::div(x, y).rem; }
+K long long k_div_ll_q(long long x, long long y) { return etl::div(x, y).quot; }
+K long long k_div_ll_r(long long x, long long y) { return etl::div(x, y).rem; }
+K long k_ldiv_q(long x, long y) { return etl::ldiv(x, y).quot; }
+K long k_ldiv_r(long x, long y) { return etl::ldiv(x, y).rem; }
+K long long k_lldiv_q(long long x, long long y) { return etl::lldiv(x, y).quot; }
+K long long k_lldiv_r(long long x, long long y) { return etl::lldiv(x, y).rem; }
+K etl::intmax_t k_imaxdiv_q(etl::intmax_t x, etl::intmax_t y) { return etl::imaxdiv(x, y).quot; }
+K etl::intmax_t k_imaxdiv_r(etl::intmax_t x, etl::intmax_t y) { return etl::imaxdiv(x, y).rem; }
 K long k_labs(long n) { return etl::labs(n); }
 K long long k_llabs(long long n) { return etl::llabs(n); }
 static_assert(sizeof(etl::intmax_t) == 8 && sizeof(long) == 8);
